@@ -74,14 +74,25 @@ class Session(BusSession):
         shutil.rmtree(self.logdir, ignore_errors=True)
         os.makedirs(self.logdir)
         stub = harness_path('vstub')
+        helper = bool(self.params.get('helper'))
+        extra = ''
+        if helper:
+            # activation through a <servicehelper> (how the system bus starts services): the bus runs "<helper> <name>" and
+            # maps the helper's exit status to an error of its own (bus/activation.c handle_servicehelper_exit_error).  The
+            # helper here is a two-line script that becomes the stub, so the harness decides its exit status as usual.
+            hp = os.path.join(b.h.rundir, 'helper.sh')
+            with open(hp, 'w') as f:
+                f.write('#!/bin/sh\nexec %s %s "$1"\n' % (stub, self.logdir))
+            os.chmod(hp, 0o755)
+            extra = '  <servicehelper>%s</servicehelper>\n' % hp
         for name in (S1, S2):
             with open(os.path.join(d, name.decode() + '.service'), 'w') as f:
-                f.write('[D-BUS Service]\nName=%s\nExec=%s %s %s\n' % (name.decode(), stub, self.logdir, name.decode()))
+                f.write('[D-BUS Service]\nName=%s\nExec=%s %s %s\n%s' % (name.decode(), stub, self.logdir, name.decode(), 'User=root\n' if helper else ''))
         with open(os.path.join(d, S3.decode() + '.service'), 'w') as f:
             f.write('[D-BUS Service]\nName=%s\nExec=%s/does-not-exist\n' % (S3.decode(), self.logdir))
         # held messages are subject to policy when they are finally delivered: Forbidden is refused at the recipient
         pol = B.PERMISSIVE_POLICY.replace('</policy>', '  <deny receive_interface="svc.i" receive_member="Forbidden"/>\n  </policy>')
-        return B.make_config(policy=pol, servicedirs=[d], limits={'service_start_timeout': TIMEOUT})
+        return B.make_config(policy=pol, servicedirs=[d], limits={'service_start_timeout': TIMEOUT}, extra=extra)
 
     # ---- alphabet ---------------------------------------------------------
     def ops(self):
@@ -100,7 +111,7 @@ class Session(BusSession):
             n = (S1, S2)[i]
             ops.append(['take', i])
             if n in self.pending and self.running.get(n):
-                for st in ('0', '1', 'S'):
+                for st in (('0', '1', 'S') if not self.params.get('helper') else ('0', '1', '2', '3', '4', '5', '6', '7', '8', '9', 'S')):
                     ops.append(['exit', i, st])
         ops.append(['takeother'])
         ops.append(['reload'])           # the same configuration is read again (SIGHUP / ReloadConfig): nothing observable may change
@@ -590,9 +601,16 @@ def run(ctx):
         # two activatable names at once (their service files run the same program with different arguments): shallower
         with ctx.sub_budget(0.8):
             st2 = explore.bfs(ctx, FACTORY, {'small': False}, max_depth=3, ops_chunk=6)
+        # the same through a <servicehelper>, whose exit statuses 1..9 each stand for an error of their own
+        with ctx.sub_budget(0.9):
+            st3 = explore.bfs(ctx, FACTORY, {'small': True, 'helper': True}, max_depth=3, ops_chunk=6)
+        st2 = dict(st2, states=st2['states'] + st3['states'], transitions=st2['transitions'] + st3['transitions'])
+        st = dict(st, via_helper={'states': st3['states'], 'transitions': st3['transitions'], 'completed_depth': st3['completed_depth']})
         st = dict(st, states=st['states'] + st2['states'], transitions=st['transitions'] + st2['transitions'], two_names={'states': st2['states'], 'transitions': st2['transitions'], 'completed_depth': st2['completed_depth']})
     else:
         st = explore.bfs(ctx, FACTORY, {'small': False}, max_depth=depth, ops_chunk=6)
+        st3 = explore.bfs(ctx, FACTORY, {'small': False, 'helper': True}, max_depth=4, ops_chunk=6)
+        st = dict(st, states=st['states'] + st3['states'], transitions=st['transitions'] + st3['transitions'], via_helper={'states': st3['states'], 'transitions': st3['transitions'], 'completed_depth': st3['completed_depth']})
     cases = helper_cases()
     workdir = os.path.join(vbox.RUN_ROOT, 'helper')
     os.makedirs(workdir, exist_ok=True)
@@ -614,7 +632,7 @@ def run(ctx):
     ctx.coverage.update({
         'states': st['states'], 'transitions': st['transitions'] + nhelper, 'traces_validated_against_impl': st['transitions'] + nhelper,
         'activation_histories': {'states': st['states'], 'transitions': st['transitions'], 'completed_depth': st['completed_depth'], 'fixpoint': st['fixpoint']},
-        'helper_invocations': nhelper, 'helper_executions': nran, 'two_names_variant': st.get('two_names'),
+        'helper_invocations': nhelper, 'helper_executions': nran, 'two_names_variant': st.get('two_names'), 'via_servicehelper': st.get('via_helper'),
         'bound': 'bus: 2 senders, %d activatable names + 1 with a missing binary, take-name / take-other-name / stub exit 0,1,SIGSEGV / start timeout / disconnect, BFS depth %d; helper: %d (name x layout x Name x Exec form x User x duplicate-section) combinations' %
                  (1 if quick else 2, depth, nhelper),
     })
